@@ -4,7 +4,7 @@
    tests `avail < sizeof(WBSAVEPOINT)` is the regenerated fact Scan.sp_checks. *)
 Require Import ZArith List Bool. Require Import IW.Lib.CInt IW.Gen.Facts.
 Require Import IW.WAL.Rec IW.WAL.Rec_proofs IW.WAL.Scan IW.WAL.Scan_proofs IW.WAL.Replay IW.WAL.Replay_proofs.
-Require Import IW.WAL.Proto IW.WAL.Proto_proofs IW.WAL.Segs_proofs IW.WAL.Flip_proofs.
+Require Import IW.WAL.Proto IW.WAL.Proto_proofs IW.WAL.Segs_proofs IW.WAL.Flip_proofs IW.WAL.Crc_proofs.
 Import ListNotations. Local Open Scope Z_scope.
 
 (* a log with three segments, two savepoints and an unfinished tail; an 8-byte main file *)
@@ -242,3 +242,35 @@ Theorem C05_crc_zero_unchecked_refuted :
   (v, ops, firstn 6 m) = (VOk, [AWrite 0 [1]; AWrite 1 [9;2;2;2]; AWrite 5 [3]], [1;9;2;2;2;3]).
 Proof. exact crc_zero_unchecked_refuted. Qed.
 Print Assumptions C05_crc_zero_unchecked_refuted.
+
+(* ---- single-bit and single-byte corruptions never collide: iwu_crc32 changes with EVERY change of one byte (Crc_proofs:
+   the table's entries and their low bytes are pairwise different, so the update is injective in the state and in the
+   data byte).  For every position in the covered bytes and every mask the second escape of C05_flip_in_segment is
+   therefore impossible; the other two (stored checksum 0, reset mark for the scanner) stay. *)
+Theorem C05_single_byte_changes_crc : forall pre b b' post init,
+  0 <= init < 4294967296 -> 0 <= b < 256 -> 0 <= b' < 256 -> b <> b' ->
+  crc32 (pre ++ b :: post) init <> crc32 (pre ++ b' :: post) init.
+Proof. exact single_byte_changes_crc. Qed.
+Print Assumptions C05_single_byte_changes_crc.
+
+Theorem C05_single_byte_flip_detected : forall Rpre crc len Rrest pre b b' post,
+  let R := Rpre ++ RSep crc len :: Rrest in
+  wf_log R = true -> crc_ok R = true -> sep_fit Rpre 0 (size Rpre) = true -> len <= size Rrest ->
+  firstn (Z.to_nat len) (encode Rrest) = pre ++ b :: post ->
+  crc = crc32 (pre ++ b :: post) 0 -> crc <> 0 -> 0 <= b < 256 -> 0 <= b' < 256 -> b <> b' -> 0 <= len ->
+  let L' := damaged (encode R) (size Rpre + sizeof_WBSEP) (pre ++ b' :: post) in
+  snd (scan L') = 0 ->
+  let f := fst (scan L') in
+  replay_ops true 1 0 L' =
+    if f =? 0 then (VOk, []) else
+    if existsb (Z.eqb f) (sp_offsets Rpre 0) then (VOk, ops_before R 0 f) else (VCorrupt, bops Rpre).
+Proof. exact single_byte_flip_detected. Qed.
+Print Assumptions C05_single_byte_flip_detected.
+Example C05_single_byte_flip_detected_ex :    (* every one of the 36 covered bytes of the second segment, masks 0x10 and 0x01:
+                                                 corruption reported, or the replay ends at the first savepoint / applies nothing *)
+  forallb (fun m => forallb (fun j =>
+     match replay_ops true 1 0 (damaged rb_log (57 + Z.of_nat j) [Z.lxor (nth (57 + j) rb_log 0) m]) with
+     | (VCorrupt, [AWrite 0 [1]]) | (VOk, [AWrite 0 [1]]) | (VOk, []) => true | _ => false end) (seq 0 36)) [16; 1] = true /\
+  length (filter (fun j => match replay_ops true 1 0 (damaged rb_log (57 + Z.of_nat j) [Z.lxor (nth (57 + j) rb_log 0) 16]) with
+                           | (VCorrupt, _) => true | _ => false end) (seq 0 36)) = 30%nat.
+Proof. vm_compute. split; reflexivity. Qed.
